@@ -287,7 +287,7 @@ def _main(args, prop, seed, t0, workdir):
     if bucket in seen_bucket:
       continue
     s = scen_by_name[sc]
-    tries = 5 if s.nondeterministic else 1
+    tries = s.confirm_tries if s.nondeterministic else 1
     confirmed = None
     for t in range(tries):
       res = run_single(prop, sc, case, workdir, tag=f'confirm{len(seen_bucket)}_{t}')
